@@ -22,6 +22,15 @@ PROPS = {
     },
 }
 
+PROPS["C18"] = {
+    "modules": ["CM.Props.C18"],
+    "level": "proof",
+    "design_ref": "DESIGN.md §6 C18",
+    "technique": "Lean 4 refinement proof (explicit-stack loop = structural recursion, well-founded measure 2*size + post frames) + cursor-invariant congruence theorem + line-protocol trace correspondence",
+    "text": "Model.walk is the literal frame-stack loop of walk.go (termination proved by the measure 2*pending sizes + post frames). walk_refines_spec proves, for every tree, state type and pair of possibly-absent callbacks, that it equals the structural recursion 'Pre; if true: children in order, then Post; stop everything when Post returns false'. cursor_inv proves callbacks are only ever invoked at cursors with Parent.Child(Index)=Node, ParentBlock = nearest enclosing block, root without parent and index -1 (as a congruence: behaviour on any other cursor is irrelevant). each_node_once_pre/post: without pruning every node is visited exactly once in pre-/post-order. The model is tied to walk.go by comparing event traces of the real Walk (parsed trees, synthetic trees, virtual roots through custom child functions; scripted prune/abort/nil policies) with the model's on every run.",
+    "note": "Custom ChildCount/Child functions are modelled by the finite tree they present (a non-well-founded presentation would not terminate in Go either). Pointer identity of nodes is modelled by value + position; the pointer-level identity Parent().Child(Index())==Node() is checked in-process by the harness.",
+}
+
 MONITOR_NOTE = "No theorem about the parser model backs this property yet (the block/inline parser model is not in Lean at this commit): the property's statement is an executable Lean definition (lean/CM/Spec) evaluated by the Lean driver on every tree the real parser returns for the generated inputs. That is monitoring against a formal specification, not a proof; it is claimed as 'other'."
 
 def monitored(pid, spec, what):
